@@ -639,3 +639,80 @@ func min(a, b int) int {
 }
 
 var _ = sort.Strings
+
+// errorDropAllowed: "function | callee" -> reason.
+var errorDropAllowed = map[string]string{
+	"netpol/eval.(*PolicyEngine).insertAdminNetworkPolicy | deleteAdminNetworkPolicy": "roll-back of a rejected insertion; deleteAdminNetworkPolicy has no error return other than nil, and the conflict error is the one returned",
+}
+
+// ErrorsNotDropped: the error result of a module function is never discarded (expression statement, `_`, or a
+// variable that is overwritten before it is looked at is judged by `propagates` where a property needs it).
+func ErrorsNotDropped(p *core.Program, r *core.Report, rule string) {
+	n := 0
+	for _, fd := range p.Funcs {
+		info := fd.Pkg.TypesInfo
+		returnsErr := func(c *ast.CallExpr) *types.Func {
+			fn := core.Callee(info, c)
+			if fn == nil || !p.IsModuleFunc(fn) {
+				return nil
+			}
+			sig, ok := fn.Type().(*types.Signature)
+			if !ok || sig.Results().Len() == 0 || !core.IsErrorType(sig.Results().At(sig.Results().Len()-1).Type()) {
+				return nil
+			}
+			return fn
+		}
+		report := func(c *ast.CallExpr, fn *types.Func, how string) {
+			key := fd.Key() + " | " + fn.Name()
+			construct := fmt.Sprintf("%s: the error of %s is looked at", fd.Key(), fn.Name())
+			if why, ok := errorDropAllowed[key]; ok {
+				r.Add(rule, construct, p.Pos(c.Pos()), core.Excepted, why)
+				return
+			}
+			r.Bad(rule, construct, p.Pos(c.Pos()), "the error returned by "+fn.Name()+" is discarded ("+how+"): a failure of the analysis (an unreadable document, a conflicting policy, an invalid rule) goes unreported and the result is silently partial")
+		}
+		ast.Inspect(fd.Decl.Body, func(nd ast.Node) bool {
+			switch x := nd.(type) {
+			case *ast.ExprStmt:
+				if c, ok := ast.Unparen(x.X).(*ast.CallExpr); ok {
+					if fn := returnsErr(c); fn != nil {
+						n++
+						report(c, fn, "the call is a statement of its own")
+					}
+				}
+			case *ast.GoStmt:
+				if fn := returnsErr(x.Call); fn != nil {
+					n++
+					report(x.Call, fn, "go statement")
+				}
+			case *ast.DeferStmt:
+				if fn := returnsErr(x.Call); fn != nil {
+					n++
+					report(x.Call, fn, "deferred call")
+				}
+			case *ast.AssignStmt:
+				if len(x.Rhs) != 1 {
+					return true
+				}
+				c, ok := ast.Unparen(x.Rhs[0]).(*ast.CallExpr)
+				if !ok {
+					return true
+				}
+				fn := returnsErr(c)
+				if fn == nil {
+					return true
+				}
+				n++
+				last := x.Lhs[len(x.Lhs)-1]
+				if id, isID := last.(*ast.Ident); isID && id.Name == "_" {
+					report(c, fn, "assigned to _")
+				} else {
+					r.OK(rule, fmt.Sprintf("%s: the error of %s is bound at %s", fd.Key(), fn.Name(), core.ExprStr(last)), p.Pos(c.Pos()), "bound to a variable")
+				}
+			}
+			return true
+		})
+	}
+	r.RuleCounts[rule+"-sites"] = n
+	r.Floor(rule+"-sites", 100)
+}
